@@ -284,3 +284,111 @@ func ruleSlotScope(c *Ctx) {
 			Alts: [][]string{{"pkg/vm#sc", "pkg/vm.(*VM).Context"}}}},
 	}})
 }
+
+// ---------------------------------------------------------------------------
+// C13 map-index-comaintenance: stackitem.Map keeps `value` (ordered pairs) and `dict` (key -> position) in step
+
+func ruleMapIndex(c *Ctx) {
+	pk := c.P.Pkg("pkg/vm/stackitem")
+	if pk == nil {
+		c.Lost("anchor", "package stackitem not found")
+		return
+	}
+	val, dict := "pkg/vm/stackitem#value", "pkg/vm/stackitem#dict"
+	n := 0
+	for _, fd := range c.P.AllFuncDecls() {
+		if fd.Pkg != pk || fd.Decl.Body == nil {
+			continue
+		}
+		reshapes := false
+		var pos ast.Node
+		writesDict := false
+		ast.Inspect(fd.Decl.Body, func(x ast.Node) bool {
+			if as, ok := x.(*ast.AssignStmt); ok {
+				for _, l := range as.Lhs {
+					if se, ok := ast.Unparen(l).(*ast.SelectorExpr); ok {
+						if v, ok := pk.TypesInfo.ObjectOf(se.Sel).(*types.Var); ok && v.IsField() && symOf(v) == val && namedTypeIs(pk.TypesInfo.TypeOf(se.X), "pkg/vm/stackitem", "Map") {
+							reshapes = true
+							pos = as
+						}
+					}
+				}
+			}
+			return true
+		})
+		if !reshapes {
+			continue
+		}
+		for _, w := range nodeWrites(pk.TypesInfo, fd.Decl.Body, true) {
+			if w.Field == dict {
+				writesDict = true
+			}
+		}
+		n++
+		if writesDict {
+			c.OK(FuncKey(fd.Obj), c.P.Pos(pos.Pos()), "re-shapes Map.value and updates the key index in the same function")
+		} else {
+			c.Fail(FuncKey(fd.Obj), c.P.Pos(pos.Pos()), FuncKey(fd.Obj)+" changes the element slice of a Map without updating its key index (dict): HASKEY/PICKITEM/SETITEM answer from a stale index afterwards")
+		}
+	}
+	c.Floor("functions re-shaping Map.value", n, 3)
+}
+
+// C13 operand-immutable: big integers obtained from stack items are never mutated in place
+func ruleOperandImmutable(c *Ctx) {
+	pk := c.P.Pkg("pkg/vm")
+	if pk == nil {
+		c.Lost("anchor", "pkg/vm not found")
+		return
+	}
+	sources := map[string]bool{"pkg/vm.(Element).BigInt": true, "pkg/vm/stackitem.(*BigInteger).Big": true, "pkg/vm/stackitem.(Item).TryInteger": true, "pkg/vm.toInt": false}
+	mutators := map[string]bool{}
+	for _, m := range []string{"Add", "Sub", "Mul", "Div", "Quo", "Rem", "Mod", "Neg", "Abs", "Lsh", "Rsh", "And", "Or", "Xor", "Not", "Exp", "Sqrt", "Set", "SetInt64", "SetUint64", "SetBit", "SetBytes", "ModInverse", "QuoRem", "DivMod", "AndNot", "ModSqrt", "GCD"} {
+		mutators["math/big.(*Int)."+m] = true
+	}
+	nsrc, nmut := 0, 0
+	for _, fd := range c.P.AllFuncDecls() {
+		if fd.Pkg != pk || fd.Decl.Body == nil {
+			continue
+		}
+		f := c.P.NewFuncCFG(fd)
+		// locals holding an operand's big.Int
+		operand := map[types.Object]bool{}
+		for o, ds := range f.defs {
+			for _, d := range ds {
+				for _, r := range d.rhs {
+					if call, ok := ast.Unparen(r).(*ast.CallExpr); ok && sources[f.calleeSym(call)] {
+						operand[o] = true
+						nsrc++
+					}
+				}
+			}
+		}
+		k := 0
+		ast.Inspect(fd.Decl.Body, func(x ast.Node) bool {
+			call, ok := x.(*ast.CallExpr)
+			if !ok || !mutators[f.calleeSym(call)] {
+				return true
+			}
+			nmut++
+			recv := ast.Unparen(call.Fun.(*ast.SelectorExpr).X)
+			bad := false
+			if id, ok := recv.(*ast.Ident); ok && operand[f.Info.ObjectOf(id)] {
+				bad = true
+			}
+			if rc, ok := recv.(*ast.CallExpr); ok && sources[f.calleeSym(rc)] {
+				bad = true
+			}
+			if bad {
+				k++
+				c.Fail(fmt.Sprintf("%s.mutates-operand#%d", FuncKey(fd.Obj), k), c.P.Pos(call.Pos()), fmt.Sprintf("%s uses a big.Int obtained from a stack item as the receiver of %s: the item (possibly shared through DUP or a slot) changes value in place", FuncKey(fd.Obj), shortSym(f.calleeSym(call))))
+			}
+			return true
+		})
+	}
+	if nmut > 0 {
+		c.OK("no-operand-mutation", "pkg/vm", fmt.Sprintf("%d big.Int mutator calls in pkg/vm, %d operand-holding locals: no mutator has an operand as its receiver (results go to fresh integers)", nmut, nsrc))
+	}
+	c.Floor("big.Int mutator calls in pkg/vm", nmut, 15)
+	c.Floor("operand-holding locals", nsrc, 30)
+}
